@@ -2,6 +2,7 @@ package checks
 
 import (
 	"bytes"
+	"encoding/binary"
 	"encoding/json"
 	"fmt"
 
@@ -30,7 +31,7 @@ type c05Cfg struct {
 	Class    int  `json:"class"`    // 0 full samples, 1 metadata-only + data written separately, 2 sample intervals
 	Optimize bool `json:"optimize"` // OptimizeTrun
 	SW       bool `json:"sw"`       // EncodeSW instead of Encode
-	Extra    int  `json:"extra"`    // 0 none, 1 emsg (AddEmsg), 2 free after mdat, 3 unknown box in traf, 4 uuid(tfxd) in moof, 5 prft after mdat
+	Extra    int  `json:"extra"`    // 0 none, 1 emsg (AddEmsg), 2 free after mdat, 3 unknown box in traf, 4 uuid(tfxd) in moof, 5 prft after mdat, 6 mdat with 64-bit header
 }
 
 type c05History struct {
@@ -120,6 +121,8 @@ func c05Build(h *c05History) (*c05Built, error) {
 			_ = frag.Moof.AddChild(mp4.NewTfxdBox(1, 2))
 		case 5:
 			frag.AddChild(mp4.CreatePrftBox(1, 0, 1, 77, 5))
+		case 6:
+			frag.Mdat.LargeSize = true // 64-bit mdat header: sample data starts 16 bytes into the mdat
 		}
 		b.Seg.AddFragment(frag)
 		b.FragData = append(b.FragData, nil)
@@ -223,6 +226,9 @@ func spliceAfterLastMdatHeader(buf bytes.Buffer, data []byte) bytes.Buffer {
 		return buf
 	}
 	at := idx + 4
+	if idx >= 4 && binary.BigEndian.Uint32(b[idx-4:]) == 1 {
+		at += 8 // 64-bit header: the payload starts after the largesize field
+	}
 	var out bytes.Buffer
 	out.Write(b[:at])
 	out.Write(data)
@@ -424,7 +430,7 @@ func c05Configs(full bool) []c05Cfg {
 				for _, sw := range []bool{false, true} {
 					extras := []int{0}
 					if full {
-						extras = []int{0, 1, 2, 3, 4, 5}
+						extras = []int{0, 1, 2, 3, 4, 5, 6}
 					}
 					for _, ex := range extras {
 						out = append(out, c05Cfg{Multi: multi, Class: class, Optimize: opt, SW: sw, Extra: ex})
@@ -446,7 +452,7 @@ func runC05(c *vf.Ctx) {
 		c.SetBudget(4 * 60 * 1e9)
 	}
 	allKinds := []int{0, 1, 2, 3, 4, 5, 6, 7, 8, 9, 10, 11, 12, 13, 14, 15}
-	c.Rule = "explicit enumeration (DFS, every prefix checked) of all operation histories on a real MediaSegment: op = add sample (16 kinds = dur{1,2} x size{1,2} x {sync,non-sync} x cto{0,-1}) to track t in {1} or {1,2,3} through each API variant of the data class (full: AddFullSample/AddFullSampleToTrack; metadata-only + separately written data: AddSample/AddSampleToTrack/AddSamples; intervals: AddSampleInterval), or start a new fragment (<= 2 fragments); configurations = {single, multi-track} x data class x OptimizeTrun on/off x Encode/EncodeSW x extra box {none, emsg, free, unknown-in-traf, uuid-in-moof, prft}. Each history is encoded, decoded by both decoders (GetFullSamples per track) and by an independent fragment reader, and compared with the added samples. Distinct = distinct encoded byte strings."
+	c.Rule = "explicit enumeration (DFS, every prefix checked) of all operation histories on a real MediaSegment: op = add sample (16 kinds = dur{1,2} x size{1,2} x {sync,non-sync} x cto{0,-1}) to track t in {1} or {1,2,3} through each API variant of the data class (full: AddFullSample/AddFullSampleToTrack; metadata-only + separately written data: AddSample/AddSampleToTrack/AddSamples; intervals: AddSampleInterval), or start a new fragment (<= 2 fragments); configurations = {single, multi-track} x data class x OptimizeTrun on/off x Encode/EncodeSW x extra {none, emsg, free, unknown-in-traf, uuid-in-moof, prft, 64-bit mdat header}. Each history is encoded, decoded by both decoders (GetFullSamples per track) and by an independent fragment reader, and compared with the added samples. Distinct = distinct encoded byte strings."
 	type job struct {
 		cfg   c05Cfg
 		depth int
